@@ -172,6 +172,7 @@ class OsLogEvent:
     loss_end_unix_timezone: Dict = field(default_factory=dict)
     loss_count: Dict = field(default_factory=dict)
     backtrace: List = field(default_factory=list)
+    transition_activity_identifier: int = 0
 
     @classmethod
     def from_raw_log_event(cls, event, log_strings):
